@@ -17,7 +17,7 @@ from epbd import term as tm, api, alg, degree
 from . import epmodel, epdeg
 from .common import loc_of, AnchorMissing
 from .c04 import unsat
-from .c05 import comp
+from .c05 import comp         # noqa: F401
 from .c10 import flat_filter, mk_filter, ok_payloads
 
 NOISE_FLOORS = [Fraction(1, 100)]          # |x| < 0.01 kWh: "no consumption left"; f32::EPSILON is symbolic (const)
@@ -215,6 +215,9 @@ def run(ctx, rep):
         # ---------------------------------------------------------------- W4 divisions
         ndiv += w4(ctx, rep, e, ev, r, tag, where)
     w3_incorpora(ctx, rep, fb)
+    # the share of on-site / cogenerated electricity that goes to DHW (read by the indicator) follows the documented split
+    from .c04 import by_service_by_source
+    by_service_by_source(ctx, rep, prefix="C15/W1/production-share", only_carrier="ELECTRICIDAD", only_service="ACS", floor=4)
     rep.analysed = {"divisions": ndiv, "own_reductions": nred}
     rep.floor("divisions", ndiv, 6)
     rep.floor("own-reductions", nred, 10)
@@ -400,6 +403,7 @@ def w3(ctx, rep, e, ev, r, oks, tag, where):
     for g, leaf in api.result_cases(r):
         if leaf.op == "adt" and leaf.a[0] == "Result" and leaf.a[1] == 0 and leaf.a[2] is not tm.ZERO:
             case_gates = g
+    every_biomass_system_declares_output(ev, r, rep, tag, where)
     for name in sorted(pres):
         if name in nearby:
             continue
@@ -413,6 +417,112 @@ def w3(ctx, rep, e, ev, r, oks, tag, where):
         else:
             rep.violated(key, "biomass mixed with the non-nearby carrier %s needs declared outputs (else error)" % name, construct=where,
                          why="the by-difference term %s is reachable with %s supplying DHW" % (tm.show(bad, 3)[:160], name))
+
+
+def conjuncts(g):
+    """Literal conjuncts of a path condition (and flattened, De Morgan through not/or)."""
+    out = []
+
+    def walk(t, pos):
+        if t is tm.TRUE and pos:
+            return
+        if t.op == "not":
+            walk(t.a[0], not pos)
+        elif t.op == "and" and pos:
+            for x in t.a:
+                walk(x, True)
+        elif t.op == "or" and not pos:
+            for x in t.a:
+                walk(x, False)
+        else:
+            out.append(t if pos else tm.not_(t))
+    for x in g:
+        walk(x, True)
+    return out
+
+
+def every_biomass_system_declares_output(ev, r, rep, tag, where):
+    """W3: on the declared-output path an error is returned as soon as ONE system burning biomass for DHW
+    has no DHW output line: a universal check over the ids of those systems (an early-exit loop over the
+    id set, or an all()/any(not ...) over it), whose inner test is 'some output line of that very id
+    with service ACS exists' - decided on class representatives."""
+    X = tm.sym("cls:otherid")
+    for carrier in ("BIOMASA", "BIOMASADENSIFICADA"):
+        key = "C15/W3/biomass-output/%s/%s" % (carrier, tag)
+        found = None
+        why = "no error exit quantified over the systems burning %s for DHW was found" % carrier
+        cands = []
+        for g, leaf in api.result_cases(r):
+            if leaf.op == "loop_pick" and isinstance(leaf.a[1], tm.T) and leaf.a[1].op == "adt" and leaf.a[1].a[1] == 1:
+                info = ev.loops_info.get(leaf.a[0])
+                if info is not None:
+                    cands.append((info["iter"], info["elem"], [c for c in conjuncts(g) if info["elem"] in tm.free_syms(c)]))
+            elif leaf.op == "adt" and leaf.a[0] == "Result" and leaf.a[1] == 1:
+                # the error of an early exit inside a helper, re-wrapped by `?`
+                for lp in tm.subterms(leaf):
+                    if lp.op == "loop_pick" and isinstance(lp.a[1], tm.T) and lp.a[1].op == "adt" and lp.a[1].a[1] == 1:
+                        info = ev.loops_info.get(lp.a[0])
+                        if info is not None:
+                            cands.append((info["iter"], info["elem"], [c for c in conjuncts(g) if info["elem"] in tm.free_syms(c)]))
+                for c in conjuncts(g):
+                    # any(ids, λ id. not any(data, p(id)))   /   not all(ids, λ id. any(data, p(id)))
+                    t = c
+                    if t.op == "any" and isinstance(t.a[1], tm.T) and t.a[1].op == "lam":
+                        el = tm.fresh("idq")
+                        cands.append((t.a[0], el, [tm.apply_lam(t.a[1], [el])]))
+        for src, el, conds in cands:
+            # (i) the ids are those of the components using this carrier for DHW
+            base = src.a[0] if src.op == "iter" else src
+            preds = []
+            cur = base.a[0] if base.op in ("collect_set", "collect") else base
+            maps_id = False
+            while cur.op in ("map", "filter", "iter", "cloned", "copied", "collect"):
+                if cur.op == "filter":
+                    preds.append(cur.a[1])
+                if cur.op == "map":
+                    b = tm.apply_lam(cur.a[1], [tm.sym("cls:midel")])
+                    maps_id = maps_id or (b.op == "proj" and b.a[3] == "id")
+                cur = cur.a[0]
+            if not preds or not maps_id:
+                continue
+            sel = lambda c: tm.and_(*[tm.apply_lam(p, [c]) for p in preds])          # noqa: E731
+            ok_src = sel(comp("Used", X, carrier=carrier, service="ACS")) is tm.TRUE and \
+                sel(comp("Used", X, carrier=carrier, service="CAL")) is tm.FALSE and \
+                sel(comp("Used", X, carrier="GASNATURAL", service="ACS")) is tm.FALSE and \
+                sel(comp("Out", X, service="ACS")) is tm.FALSE
+            if not ok_src:
+                continue
+            # (ii) the exit condition is: no DHW output line of that very id
+            for c in conds:
+                if not (c.op == "not" and c.a[0].op == "any" and isinstance(c.a[0].a[1], tm.T) and c.a[0].a[1].op == "lam"):
+                    continue
+                p = c.a[0].a[1]
+
+                def val(cmp_, same):
+                    v = tm.apply_lam(p, [cmp_])
+                    v = tm.subst(v, {tm.eq(X, el): tm.boolean(same), tm.eq(el, X): tm.boolean(same)})
+                    if same:
+                        v = tm.subst(v, {X: el})
+                        # the loop element is a member of the very set it is drawn from
+                        mem = dict((t, tm.TRUE) for t in tm.subterms(v)
+                                   if t.op == "contains" and t.a[0] is base and t.a[1] is el)
+                        if mem:
+                            v = tm.subst(v, mem)
+                    return v
+                t1 = val(comp("Out", X, service="ACS"), True)
+                t2 = val(comp("Out", X, service="CAL"), True)
+                t3 = val(comp("Out", X, service="ACS"), False)
+                t4 = val(comp("Used", X, carrier=carrier, service="ACS"), True)
+                if t1 is tm.TRUE and t2 is tm.FALSE and t3 is tm.FALSE and t4 is tm.FALSE:
+                    found = True
+                else:
+                    why = "the per-system test is not 'a DHW output line of that system exists': on representatives %s" % \
+                          [tm.show(x, 2)[:20] for x in (t1, t2, t3, t4)]
+        if found:
+            rep.discharged(key, "an error is returned as soon as one system burning %s for DHW has no DHW output line (universal over the ids)" % carrier)
+        else:
+            rep.violated(key, "biomass mixed with a non-nearby carrier is computable only if EVERY biomass system declares its DHW output (else error)",
+                         construct=where, why=why)
 
 
 def demand_term(needs):
